@@ -106,28 +106,7 @@ func Walk(ctx context.Context, fileSystem fs.FS, prefix, delimiter, marker strin
 				strings.HasPrefix(path+"/", prefix) &&
 				strings.Contains(strings.TrimPrefix(path+"/", prefix), delimiter) {
 				skipflag = fs.SkipDir
-			} else {
-				if delimiter == "" {
-					dirobj, err := getObj(path+"/", d)
-					if err == ErrSkipObj {
-						return skipflag
-					}
-					if err != nil {
-						return fmt.Errorf("directory to object %q: %w", path, err)
-					}
-					if pastMax {
-						truncated = true
-						return fs.SkipAll
-					}
-					objects = append(objects, dirobj)
-					if (len(objects) + len(cpmap)) == int(max) {
-						newMarker = path
-						pastMax = true
-					}
-
-					return skipflag
-				}
-
+			} else if delimiter != "" {
 				// TODO: can we do better here rather than a second readdir
 				// per directory?
 				ents, err := fs.ReadDir(fileSystem, path)
@@ -139,6 +118,9 @@ func Walk(ctx context.Context, fileSystem fs.FS, prefix, delimiter, marker strin
 					return skipflag
 				}
 			}
+			// a directory is listed under its key with the trailing
+			// separator and is subject to the same marker and prefix
+			// rules as any other key
 			path += "/"
 		}
 
